@@ -7,6 +7,7 @@ package stream
 import (
 	"encoding/xml"
 
+	"mellium.im/xmpp/internal/ns"
 	"mellium.im/xmpp/jid"
 )
 
@@ -43,7 +44,9 @@ func (i *Info) FromStartElement(s xml.StartElement) error {
 			if err != nil {
 				return BadFormat
 			}
-		case xml.Name{Space: "xml", Local: "lang"}:
+		case xml.Name{Space: ns.XML, Local: "lang"}, xml.Name{Space: "xml", Local: "lang"}:
+			// Decoders report the attribute in the XML namespace; "xml" is the
+			// prefix as found in raw or hand made tokens.
 			i.Lang = attr.Value
 		}
 	}
